@@ -86,6 +86,8 @@ NEEDS = {
  "C20-D": ("C20", "utils.rs unique(): MAX_UNIQUE_ITEMS = 2048 applied with .take() on the HashMap iterator BEFORE the sort", "Patience + more than 2048 once-occurring items on one side + moved blocks"),
  "C01-E": ("C01", "myers.rs find_middle_snake: the guard `x < old_range.len() && y < new_range.len()` before the snake extension removed as redundant (range.start + x overflows for out-of-box points)", "an Index implementation whose in-bounds range ends at or next to usize::MAX + a lopsided box"),
  "C01-F": ("C01", "replace.rs Replace::flush_eq: the pending equal run is cleared only after the inner hook accepted it", "three steps: the hook errs exactly on an equal, the caller keeps the same Replace object, then runs another diff (adapter re-use after a hook error)"),
+ "C02-E": ("C02", "deadline_support.rs duration_to_deadline: Some(Instant::now() + add) instead of checked_add", "TextDiff::configure().timeout(Duration::MAX) (an overflowing timeout): every diff_* call panics where the unchanged code means 'no deadline'"),
+ "C02-F": ("C02", "myers.rs conquer: when deadline_exceeded at entry the common prefix/suffix trimming is skipped and the Delete+Insert fallback runs", "IDENTICAL inputs with an already-expired deadline (Myers/Patience): a Replace instead of only Equal ops, ratio 0.0"),
  "C03-E": ("C03", "lcs.rs make_table: memory guard MAX_TABLE_CELLS = 1 << 28 returns None (the deadline fallback) without any deadline", "Algorithm::Lcs + a trimmed middle above 16384 x 16384 cells that still shares an item (only sparse inputs are feasible)"),
  "C03-F": ("C03", "hook.rs: the finish forwarder of `impl DiffHook for &mut D` removed (no-op default swallows the call)", "a buffering Replace/Compact passed BY REFERENCE as an inner stage: Compact::new(&mut replace, ..)"),
  "C04-E": ("C04", "text/mod.rs: 'buffer diffed against itself' fast path compares token start addresses only", "old and new are ALIASING views of one allocation whose last token differs in length (&buf[..len-1] vs &buf[..])"),
